@@ -278,17 +278,51 @@ func init() {
 				name string
 				pat  func(ifi *ssa.If) (bool, int) // matches, failing successor index
 			}
+			// okOfGet: v is the ok result of inflightQueue.get(x), directly or through a
+			// one-level wrapper such as  func (a) isInflight(tsn) bool { _, ok := a.inflightQueue.get(tsn); return ok }
+			okOfGet := func(v ssa.Value) (ssa.Value, bool) {
+				if ex, ok := v.(*ssa.Extract); ok && ex.Index == 1 {
+					if call, ok := isCallTo(ex.Tuple, get); ok {
+						return call.Call.Args[1], true
+					}
+				}
+				if call, ok := v.(*ssa.Call); ok {
+					sc := call.Call.StaticCallee()
+					if sc != nil && c.P.inPkg(sc) && sc.Blocks != nil {
+						for _, r := range allReturns(sc) {
+							res := retResults(r)
+							if len(res) != 1 {
+								return nil, false
+							}
+							ex, ok := res[0].(*ssa.Extract)
+							if !ok || ex.Index != 1 {
+								return nil, false
+							}
+							inner, ok := isCallTo(ex.Tuple, get)
+							if !ok {
+								return nil, false
+							}
+							for pi, p := range sc.Params {
+								if inner.Call.Args[1] == ssa.Value(p) && pi < len(call.Call.Args) {
+									return call.Call.Args[pi], true
+								}
+							}
+						}
+					}
+				}
+				return nil, false
+			}
 			getArg := func(ifi *ssa.If, argPat VPat) (bool, int) {
-				// cond is the ok of get(arg): "if ok goto cont else fail"
-				ex, ok := ifi.Cond.(*ssa.Extract)
-				if !ok || ex.Index != 1 {
+				// "if ok goto cont else fail" (or the negated form)
+				cv, pol := normCond(ifi.Cond, true)
+				arg, ok := okOfGet(cv)
+				if !ok || !argPat(arg) {
 					return false, 0
 				}
-				call, ok := isCallTo(ex.Tuple, get)
-				if !ok || !argPat(call.Call.Args[1]) {
-					return false, 0
+				if pol {
+					return true, 1 // cond true = present; failing edge is the false successor
 				}
-				return true, 1
+				return true, 0
 			}
 			conv := func(p VPat) VPat { return func(v ssa.Value) bool { return p(unconv(v)) } }
 			checks := []vcheck{
